@@ -139,20 +139,6 @@ theorem dirChain_append (fs : FS) (cur a b : Path) :
     · rintro ⟨h1, h2, h3, h4⟩; exact ⟨⟨h1, h2, h3⟩, by simpa using h4⟩
     · rintro ⟨⟨h1, h2, h3⟩, h4⟩; exact ⟨h1, h2, h3, by simpa using h4⟩
 
-theorem noLinkBelow_append (fs : FS) (cur a b : Path) :
-    NoLinkBelow fs cur (a ++ b) ↔ NoLinkBelow fs cur a ∧ NoLinkBelow fs (cur ++ a) b := by
-  induction a generalizing cur with
-  | nil => simp [NoLinkBelow]
-  | cons x xs ih =>
-    simp only [List.cons_append, NoLinkBelow, ih]
-    constructor
-    · rintro ⟨h1, h2, h3, h4⟩; exact ⟨⟨h1, h2, h3⟩, by simpa using h4⟩
-    · rintro ⟨⟨h1, h2, h3⟩, h4⟩; exact ⟨h1, h2, h3, by simpa using h4⟩
-
-theorem canonicalize_dirChain (fs : FS) (p : Path) (h : DirChain fs [] p) : canonicalize fs p = .ok p := by
-  unfold canonicalize canonFuel walkF
-  simpa using walkWith_dirChain _ fs [] p rfl h
-
 /-- a successful `unlink` of a plain path removes exactly that path -/
 theorem unlink_ok_plain (fs : FS) (root rel : Path) (hr : DirChain fs [] root)
     (hp : NoLinkBelow fs root rel) (hok : (unlink fs (root ++ rel)).1 = .ok) :
